@@ -878,4 +878,823 @@ theorem fold_plus {e : CExpr} {x : Int} (h : Folds fp e x) : Folds fp (.un .plus
 
 end induction
 
+section induction2
+variable (fp : FpEnv)
+
+/-- arithmetic and bitwise operators: both operands converted to the common type -/
+theorem fold_bin_arith {a b : CExpr} {x y v : Int} (op : BinOp) (k : NodeKind)
+    (hop : (op, k) ∈ [(BinOp.add, NodeKind.ND_ADD), (.sub, .ND_SUB), (.mul, .ND_MUL), (.div, .ND_DIV), (.mod, .ND_MOD),
+                     (.band, .ND_BITAND), (.bor, .ND_BITOR), (.bxor, .ND_BITXOR)])
+    (ha : Folds fp a x) (hb : Folds fp b y)
+    (hv : binop op (ITy.common (typeOf a) (typeOf b)) ((ITy.common (typeOf a) (typeOf b)).convert x)
+            ((ITy.common (typeOf a) (typeOf b)).convert y) = some v) :
+    (ITy.common (typeOf a) (typeOf b)).inRange v = true ∧
+      ∀ lab, eval2 .wrapping fp (mkArith k (elabE a) (elabE b)) lab = .ok (img v) := by
+  have hw := common_wide (typeOf a) (typeOf b)
+  have e : mkArith k (elabE a) (elabE b) = bin k (descr (ITy.common (typeOf a) (typeOf b)))
+      (mkCast (elabE a) (descr (ITy.common (typeOf a) (typeOf b)))) (mkCast (elabE b) (descr (ITy.common (typeOf a) (typeOf b)))) := by
+    simp only [mkArith, elab_ty, gct_descr]
+  rw [e]
+  generalize ITy.common (typeOf a) (typeOf b) = t at hv hw ⊢
+  have hl := cast_ok fp t ha
+  have hr := cast_ok fp t hb
+  have hx := convert_inRange t x
+  have hy := convert_inRange t y
+  simp only [List.mem_cons, Prod.mk.injEq, List.mem_nil_iff, or_false] at hop
+  have key : ∀ lab, eval2 .wrapping fp (bin k (descr t) (mkCast (elabE a) (descr t)) (mkCast (elabE b) (descr t))) lab = .ok (img v)
+      ∧ t.inRange v = true := by
+    intro lab
+    rcases hop with ⟨h1, h2⟩ | ⟨h1, h2⟩ | ⟨h1, h2⟩ | ⟨h1, h2⟩ | ⟨h1, h2⟩ | ⟨h1, h2⟩ | ⟨h1, h2⟩ | ⟨h1, h2⟩ <;> subst h1 h2
+    · exact fold_add fp t _ _ _ _ v lab hw.ne_bool hl hr hv
+    · exact fold_sub fp t _ _ _ _ v lab hw.ne_bool hl hr hv
+    · exact fold_mul fp t _ _ _ _ v lab hw.ne_bool hl hr hv
+    · exact fold_div fp t _ _ _ _ v lab hw hl hr hx hy hv
+    · exact fold_mod fp t _ _ _ _ v lab hw hl hr hx hy hv
+    · exact fold_band fp t _ _ _ _ v lab hw.ne_bool hl hr hv
+    · exact fold_bor fp t _ _ _ _ v lab hw.ne_bool hl hr hv
+    · exact fold_bxor fp t _ _ _ _ v lab hw.ne_bool hl hr hv
+  exact ⟨(key false).2, fun lab => (key lab).1⟩
+
+theorem fold_bin_shift {a b : CExpr} {x y v : Int} (op : BinOp) (k : NodeKind)
+    (hop : (op, k) ∈ [(BinOp.shl, NodeKind.ND_SHL), (.shr, .ND_SHR)])
+    (ha : Folds fp a x) (hb : Folds fp b y)
+    (hv : binop op (typeOf a).promote x y = some v) :
+    (typeOf a).promote.inRange v = true ∧ ∀ lab, eval2 .wrapping fp (mkPromoted k (elabE a) (elabE b)) lab = .ok (img v) := by
+  have hw := promote_wide (typeOf a)
+  have hp := promote_inRange _ x ha.1
+  have e : mkPromoted k (elabE a) (elabE b) = .mk k (descr (typeOf a).promote) 0 (mkCast (elabE a) (descr (typeOf a).promote))
+      (elabE b) .null .null .null := by simp only [mkPromoted, elab_ty, gct_int]
+  rw [e]
+  have hl := cast_ok fp (typeOf a).promote ha
+  rw [convert_id _ _ hp] at hl
+  simp only [List.mem_cons, Prod.mk.injEq, List.mem_nil_iff, or_false] at hop
+  have key : ∀ lab, eval2 .wrapping fp (.mk k (descr (typeOf a).promote) 0 (mkCast (elabE a) (descr (typeOf a).promote))
+      (elabE b) .null .null .null) lab = .ok (img v) ∧ (typeOf a).promote.inRange v = true := fun lab => by
+    rcases hop with ⟨h1, h2⟩ | ⟨h1, h2⟩ <;> subst h1 h2
+    · exact fold_shl fp _ _ _ x y v lab hw hl hb.2 hp hv
+    · exact fold_shr fp _ _ _ x y v lab hw hl hb.2 hp hv
+  exact ⟨(key false).2, fun lab => (key lab).1⟩
+
+/-- a comparison node over two expressions: both converted to the common type `t`, result `int` -/
+theorem fold_cmp_gen {a b : CExpr} {x y : Int} (k : NodeKind) (op : String) (cu cs : BitVec 64 → BitVec 64 → Bool) (res : Bool)
+    (ha : Folds fp a x) (hb : Folds fp b y)
+    (harm : ∀ (ty : CTy) (nv : BitVec 64) (l r c t e : CNode) (label : Bool), isFlonum ty = false →
+        eval2 .wrapping fp (.mk k ty nv l r c t e) label = (cmpArm .wrapping fp op cu cs l r >>= fun v => pure (wrapTy ty v)))
+    (hres : (if (descr (ITy.common (typeOf a) (typeOf b))).isUnsigned
+              then cu (img ((ITy.common (typeOf a) (typeOf b)).convert x)) (img ((ITy.common (typeOf a) (typeOf b)).convert y))
+              else cs (img ((ITy.common (typeOf a) (typeOf b)).convert x)) (img ((ITy.common (typeOf a) (typeOf b)).convert y))) = res) :
+    ∀ lab, eval2 .wrapping fp (mkCompare k (elabE a) (elabE b)) lab = .ok (img (b2z res)) := by
+  intro lab
+  have e : mkCompare k (elabE a) (elabE b) = bin k tyInt (mkCast (elabE a) (descr (ITy.common (typeOf a) (typeOf b))))
+      (mkCast (elabE b) (descr (ITy.common (typeOf a) (typeOf b)))) := by simp only [mkCompare, elab_ty, gct_descr]
+  rw [e]; simp only [bin]
+  rw [harm _ _ _ _ _ _ _ _ (show isFlonum tyInt = false from rfl)]
+  apply fold_cmp_node
+  exact cmpArm_ok fp _ _ _ _ _ op cu cs res rfl (cast_ok fp _ ha) (cast_ok fp _ hb) hres
+
+
+theorem b2z_inRange (b : Bool) : ITy.inRange .i32 (b2z b) = true := by cases b <;> rfl
+
+theorem fold_bin {a b : CExpr} {x y v : Int} (op : BinOp) (ha : Folds fp a x) (hb : Folds fp b y)
+    (hv : (if op.isShift then binop op (typeOf a).promote x y
+           else binop op (ITy.common (typeOf a) (typeOf b)) ((ITy.common (typeOf a) (typeOf b)).convert x)
+                  ((ITy.common (typeOf a) (typeOf b)).convert y)) = some v) :
+    Folds fp (.bin op a b) v := by
+  have hw := common_wide (typeOf a) (typeOf b)
+  have hx' := convert_inRange (ITy.common (typeOf a) (typeOf b)) x
+  have hy' := convert_inRange (ITy.common (typeOf a) (typeOf b)) y
+  cases op <;> simp only [BinOp.isShift, Bool.false_eq_true, ite_false, ite_true] at hv <;> simp only [Folds, typeOf, elabE]
+  case add => exact fold_bin_arith fp .add .ND_ADD (by simp) ha hb hv
+  case sub => exact fold_bin_arith fp .sub .ND_SUB (by simp) ha hb hv
+  case mul => exact fold_bin_arith fp .mul .ND_MUL (by simp) ha hb hv
+  case div => exact fold_bin_arith fp .div .ND_DIV (by simp) ha hb hv
+  case mod => exact fold_bin_arith fp .mod .ND_MOD (by simp) ha hb hv
+  case band => exact fold_bin_arith fp .band .ND_BITAND (by simp) ha hb hv
+  case bor => exact fold_bin_arith fp .bor .ND_BITOR (by simp) ha hb hv
+  case bxor => exact fold_bin_arith fp .bxor .ND_BITXOR (by simp) ha hb hv
+  case shl => exact fold_bin_shift fp .shl .ND_SHL (by simp) ha hb hv
+  case shr => exact fold_bin_shift fp .shr .ND_SHR (by simp) ha hb hv
+  case eq =>
+    simp only [binop] at hv; cases hv
+    refine ⟨b2z_inRange _, fold_cmp_gen fp .ND_EQ "==" _ _ _ ha hb (fun ty nv l r c t e lab hf => eval2_EQ _ _ _ _ _ _ _ _ _ _ hf) ?_⟩
+    have := img_inj _ _ _ hw hx' hy'
+    simp only [ite_self]
+    rw [Bool.eq_iff_iff]; simpa using this
+  case ne =>
+    simp only [binop] at hv; cases hv
+    refine ⟨b2z_inRange _, fold_cmp_gen fp .ND_NE "!=" _ _ _ ha hb (fun ty nv l r c t e lab hf => eval2_NE _ _ _ _ _ _ _ _ _ _ hf) ?_⟩
+    have := img_inj _ _ _ hw hx' hy'
+    simp only [ite_self]
+    rw [Bool.eq_iff_iff]; simpa using not_congr this
+  case lt =>
+    simp only [binop] at hv; cases hv
+    exact ⟨b2z_inRange _, fold_cmp_gen fp .ND_LT "<" _ _ _ ha hb (fun ty nv l r c t e lab hf => eval2_LT _ _ _ _ _ _ _ _ _ _ hf)
+      (cmp_images _ _ _ hw hx' hy').1⟩
+  case le =>
+    simp only [binop] at hv; cases hv
+    exact ⟨b2z_inRange _, fold_cmp_gen fp .ND_LE "<=" _ _ _ ha hb (fun ty nv l r c t e lab hf => eval2_LE _ _ _ _ _ _ _ _ _ _ hf)
+      (cmp_images _ _ _ hw hx' hy').2⟩
+  case gt =>
+    simp only [binop] at hv; cases hv
+    refine ⟨b2z_inRange _, ?_⟩
+    have := fold_cmp_gen fp .ND_LT "<" BitVec.ult BitVec.slt (decide ((ITy.common (typeOf a) (typeOf b)).convert x > (ITy.common (typeOf a) (typeOf b)).convert y))
+      hb ha (fun ty nv l r c t e lab hf => eval2_LT _ _ _ _ _ _ _ _ _ _ hf)
+      (by rw [common_comm (typeOf b) (typeOf a)]; exact (cmp_images _ _ _ hw hy' hx').1)
+    exact this
+  case ge =>
+    simp only [binop] at hv; cases hv
+    refine ⟨b2z_inRange _, ?_⟩
+    have := fold_cmp_gen fp .ND_LE "<=" BitVec.ule BitVec.sle (decide ((ITy.common (typeOf a) (typeOf b)).convert x ≥ (ITy.common (typeOf a) (typeOf b)).convert y))
+      hb ha (fun ty nv l r c t e lab hf => eval2_LE _ _ _ _ _ _ _ _ _ _ hf)
+      (by rw [common_comm (typeOf b) (typeOf a)]; exact (cmp_images _ _ _ hw hy' hx').2)
+    exact this
+
+theorem truth_of_folds {e : CExpr} {x : Int} (h : Folds fp e x) : truth .wrapping fp (elabE e) = .ok (x != 0) :=
+  truth_ok fp x (elabE e) h.2 (inRange_wide _ x h.1) (by rw [elab_ty]; exact descr_not_flonum _)
+
+theorem fold_land {a b : CExpr} {x : Int} (ha : Folds fp a x) (res : Bool)
+    (hb : x ≠ 0 → ∃ y, Folds fp b y ∧ res = (y != 0)) (h0 : x = 0 → res = false) :
+    Folds fp (.land a b) (b2z res) := by
+  refine ⟨b2z_inRange _, fun lab => ?_⟩
+  simp only [elabE, bin]
+  rw [eval2_LOGAND _ _ _ _ _ _ _ _ _ _ (show isFlonum tyInt = false from rfl), truth_of_folds fp ha]
+  by_cases hx : x = 0
+  · subst hx
+    simp only [bind, Except.bind, pure, Except.pure, h0 rfl, b2i_castS]
+    exact congrArg Except.ok (wrap_int01 false)
+  · obtain ⟨y, hy, hr⟩ := hb hx
+    have : (x != 0) = true := by simpa using hx
+    simp only [this, ite_true, bind, Except.bind, pure, Except.pure, truth_of_folds fp hy, b2i_castS, hr]
+    exact congrArg Except.ok (wrap_int01 _)
+
+theorem fold_lor {a b : CExpr} {x : Int} (ha : Folds fp a x) (res : Bool)
+    (hb : x = 0 → ∃ y, Folds fp b y ∧ res = (y != 0)) (h0 : x ≠ 0 → res = true) :
+    Folds fp (.lor a b) (b2z res) := by
+  refine ⟨b2z_inRange _, fun lab => ?_⟩
+  simp only [elabE, bin]
+  rw [eval2_LOGOR _ _ _ _ _ _ _ _ _ _ (show isFlonum tyInt = false from rfl), truth_of_folds fp ha]
+  by_cases hx : x = 0
+  · obtain ⟨y, hy, hr⟩ := hb hx
+    subst hx
+    simp only [show ((0:Int) != 0) = false from rfl, Bool.false_eq_true, ite_false, bind, Except.bind, pure, Except.pure,
+      truth_of_folds fp hy, b2i_castS, hr]
+    exact congrArg Except.ok (wrap_int01 _)
+  · have : (x != 0) = true := by simpa using hx
+    simp only [this, ite_true, bind, Except.bind, pure, Except.pure, h0 hx, b2i_castS]
+    exact congrArg Except.ok (wrap_int01 true)
+
+theorem fold_cond {c a b : CExpr} {x : Int} (hc : Folds fp c x) (v : Int)
+    (hsel : ∃ s y, (if x ≠ 0 then s = a else s = b) ∧ Folds fp s y ∧ v = (ITy.common (typeOf a) (typeOf b)).convert y) :
+    Folds fp (.cond c a b) v := by
+  obtain ⟨s, y, hs, hy, hv⟩ := hsel
+  subst hv
+  have hw := common_wide (typeOf a) (typeOf b)
+  refine ⟨convert_inRange _ _, fun lab => ?_⟩
+  simp only [elabE, elab_ty, gct_descr]
+  rw [eval2_COND _ _ _ _ _ _ _ _ _ _ (descr_not_flonum _), truth_of_folds fp hc]
+  have hwr := wrap_convert _ hw.ne_bool ((ITy.common (typeOf a) (typeOf b)).convert y)
+  rw [convert_id _ _ (convert_inRange _ _)] at hwr
+  by_cases hx : x = 0
+  · have : (x != 0) = false := by simpa using hx
+    simp only [hx, ne_eq, not_true_eq_false, ite_false] at hs
+    subst hs
+    simp only [this, Bool.false_eq_true, ite_false, bind, Except.bind, pure, Except.pure, cast_ok fp _ hy, hwr]
+  · have : (x != 0) = true := by simpa using hx
+    simp only [hx, ne_eq, not_false_eq_true, ite_true] at hs
+    subst hs
+    simp only [this, ite_true, bind, Except.bind, pure, Except.pure, cast_ok fp _ hy, hwr]
+
+theorem fold_cast {e : CExpr} {x : Int} (t : ITy) (h : Folds fp e x) : Folds fp (.cast t e) (t.convert x) :=
+  ⟨convert_inRange t x, cast_ok fp t h⟩
+
+/-- **every integer constant expression that has a C11 value folds to the image of exactly that value** -/
+theorem fold_main : ∀ (e : CExpr) (v : Int), Spec.Const.eval e = some v → Folds fp e v := by
+  intro e
+  induction e with
+  | lit t v0 => intro v h; exact fold_lit fp t v0 v h
+  | un op e ih =>
+    intro v h
+    simp only [Spec.Const.eval] at h
+    split at h
+    · cases h
+    · rename_i x hx
+      have hf := ih x hx
+      cases op <;> simp only [unop] at h
+      · exact fold_neg fp hf h
+      · cases h; exact fold_bitnot fp hf
+      · cases h; exact fold_lognot fp hf
+      · cases h; exact fold_plus fp hf
+  | bin op a b iha ihb =>
+    intro v h
+    simp only [Spec.Const.eval] at h
+    split at h
+    · rename_i x y hx hy
+      exact fold_bin fp op (iha x hx) (ihb y hy) h
+    · cases h
+  | land a b iha ihb =>
+    intro v h
+    simp only [Spec.Const.eval] at h
+    split at h
+    · cases h
+    · rename_i x hx
+      split at h
+      · rename_i h0; cases h
+        exact fold_land fp (iha x hx) false (fun hne => absurd h0 hne) (fun _ => rfl)
+      · rename_i hne
+        split at h
+        · cases h
+        · rename_i y hy; cases h
+          exact fold_land fp (iha x hx) (y != 0) (fun _ => ⟨y, ihb y hy, rfl⟩) (fun h0 => absurd h0 hne)
+  | lor a b iha ihb =>
+    intro v h
+    simp only [Spec.Const.eval] at h
+    split at h
+    · cases h
+    · rename_i x hx
+      split at h
+      · rename_i hne; cases h
+        exact fold_lor fp (iha x hx) true (fun h0 => absurd h0 hne) (fun _ => rfl)
+      · rename_i h0
+        have h0 : x = 0 := by simpa using h0
+        split at h
+        · cases h
+        · rename_i y hy; cases h
+          exact fold_lor fp (iha x hx) (y != 0) (fun _ => ⟨y, ihb y hy, rfl⟩) (fun hne => absurd h0 hne)
+  | cond c a b ihc iha ihb =>
+    intro v h
+    simp only [Spec.Const.eval] at h
+    split at h
+    · cases h
+    · rename_i x hx
+      split at h
+      · rename_i hne
+        cases ha : Spec.Const.eval a with
+        | none => simp [ha] at h
+        | some y =>
+          simp only [ha, Option.map] at h; cases h
+          exact fold_cond fp (ihc x hx) _ ⟨a, y, by simp [hne], iha y ha, rfl⟩
+      · rename_i h0
+        cases hb : Spec.Const.eval b with
+        | none => simp [hb] at h
+        | some y =>
+          simp only [hb, Option.map] at h; cases h
+          exact fold_cond fp (ihc x hx) _ ⟨b, y, by simp [h0], ihb y hb, rfl⟩
+  | cast t e ih =>
+    intro v h
+    simp only [Spec.Const.eval] at h
+    cases he : Spec.Const.eval e with
+    | none => simp [he] at h
+    | some x =>
+      simp only [he, Option.map] at h; cases h
+      exact fold_cast fp t (ih x he)
+
+
+end induction2
+
+/-! ## No operand ever reaches a host trap -/
+
+section notrap
+/-- failures that are not a crash of the compiler: a diagnostic, or (for a C11-undefined shift count, which
+    x86 masks) the host's undefined shift -/
+def Benign : Fail → Prop
+  | .diag _ => True
+  | .hostUB w => w = "shift count out of range"
+  | _ => False
+
+/-- the computation does not trap (SIGFPE), dereference NULL or leave the model -/
+def NoTrap {α : Type} (r : Except Fail α) : Prop := ∀ f, r = .error f → Benign f
+
+theorem noTrap_ok {α : Type} (a : α) : NoTrap (.ok a : Except Fail α) := fun _ h => by cases h
+theorem noTrap_pure {α : Type} (a : α) : NoTrap (pure a : Except Fail α) := fun _ h => by cases h
+theorem noTrap_diag {α : Type} (m : String) : NoTrap (.error (.diag m) : Except Fail α) := fun f h => by cases h; trivial
+theorem noTrap_bind {α β : Type} {m : Except Fail α} {f : α → Except Fail β} (hm : NoTrap m) (hf : ∀ a, NoTrap (f a)) :
+    NoTrap (m >>= f) := by
+  cases m with
+  | error e => intro g h; exact hm g (by simpa [Bind.bind, Except.bind] using h)
+  | ok a => exact hf a
+theorem noTrap_ite {α : Type} {c : Prop} [Decidable c] {a b : Except Fail α} (ha : NoTrap a) (hb : NoTrap b) :
+    NoTrap (if c then a else b) := by split <;> assumption
+
+theorem noTrap_divmod (isDiv : Bool) (ty : CTy) (a b : BitVec 64) : NoTrap (divmod .wrapping isDiv ty a b) := by
+  unfold divmod
+  by_cases hb : b = 0#64
+  · subst hb; exact noTrap_diag _
+  · have hb' : ¬ (b = 0) := hb
+    rw [beq_false_of_ne hb]
+    simp only [Bool.false_eq_true, ite_false]
+    split
+    · cases isDiv <;> simp only [Bool.false_eq_true, ite_false, ite_true, divU, modU, hb', ↓reduceIte] <;> exact noTrap_ok _
+    · by_cases h1 : b = 18446744073709551615#64
+      · subst h1; exact noTrap_pure _
+      · have h1' : ¬ (b = -1) := h1
+        rw [beq_false_of_ne h1]
+        cases isDiv <;> simp only [Bool.false_eq_true, ite_false, ite_true, divS, modS, hb', h1', and_false, ↓reduceIte] <;>
+          exact noTrap_ok _
+
+theorem noTrap_shlS (a : BitVec 64) (c : Int) : NoTrap (shlS .wrapping a c) := by
+  unfold shlS; split
+  · intro f h; cases h; rfl
+  · exact noTrap_ok _
+theorem noTrap_shrS (a : BitVec 64) (c : Int) : NoTrap (shrS .wrapping a c) := by
+  unfold shrS; split
+  · intro f h; cases h; rfl
+  · exact noTrap_ok _
+theorem noTrap_shrU (a : BitVec 64) (c : Int) : NoTrap (shrU .wrapping a c) := by
+  unfold shrU; split
+  · intro f h; cases h; rfl
+  · exact noTrap_ok _
+
+variable (fp : FpEnv)
+
+theorem elab_ne_null (e : CExpr) : elabE e ≠ .null := by
+  induction e with
+  | lit t v => simp [elabE]
+  | un op e ih =>
+    cases op <;> simp only [elabE, mkPromoted, un, mkCast, ne_eq, reduceCtorEq, not_false_eq_true]
+    split
+    · simp
+    · exact ih
+  | bin op a b _ _ => cases op <;> simp [elabE, mkPromoted, mkArith, mkCompare, bin]
+  | land a b _ _ => simp [elabE, bin]
+  | lor a b _ _ => simp [elabE, bin]
+  | cond c a b _ _ _ => simp [elabE]
+  | cast t e _ => simp [elabE, mkCast, un]
+
+theorem tyOf_elab (e : CExpr) : CNode.tyOf (elabE e) = .ok (descr (typeOf e)) := by
+  have h := elab_ty e
+  cases he : elabE e with
+  | null => exact absurd he (elab_ne_null e)
+  | mk k ty v a b c d e' => rw [he] at h; simp only [nodeTy_mk] at h; simp only [CNode.tyOf, h]
+
+/-- no trap in an integer-typed node: what must be shown about the part before the wrapper -/
+abbrev NT (n : CNode) : Prop := ∀ label, NoTrap (eval2 .wrapping fp n label)
+
+theorem noTrap_wrap {raw : Except Fail (BitVec 64)} (ty : CTy) (h : NoTrap raw) : NoTrap (raw >>= fun v => pure (wrapTy ty v)) :=
+  noTrap_bind h (fun _ => noTrap_pure _)
+
+theorem nt_cast (n : CNode) (ty : ITy) (tn : ITy) (hty : CNode.tyOf n = .ok (descr tn)) (hn : NT fp n) : NT fp (mkCast n (descr ty)) := by
+  intro label
+  simp only [mkCast, un]
+  rw [eval2_CAST _ _ _ _ _ _ _ _ _ _ (descr_not_flonum ty)]
+  apply noTrap_wrap
+  apply noTrap_ite
+  · simp only [hty, bind, Except.bind, descr_not_flonum, Bool.false_eq_true, ite_false]
+    exact noTrap_bind (hn label) (fun _ => noTrap_pure _)
+  · exact hn label
+
+theorem nt_truth (n : CNode) (tn : ITy) (hty : CNode.tyOf n = .ok (descr tn)) (hn : NT fp n) : NoTrap (truth .wrapping fp n) := by
+  unfold truth
+  simp only [hty, bind, Except.bind, descr_not_flonum, Bool.false_eq_true, ite_false]
+  exact noTrap_bind (hn false) (fun _ => noTrap_pure _)
+
+theorem tyOf_mkCast (n : CNode) (ty : CTy) : CNode.tyOf (mkCast n ty) = .ok ty := rfl
+
+theorem nt_cmpArm (op : String) (cu cs : BitVec 64 → BitVec 64 → Bool) (l r : CNode) (t : ITy)
+    (hty : CNode.tyOf l = .ok (descr t)) (hl : NT fp l) (hr : NT fp r) : NoTrap (cmpArm .wrapping fp op cu cs l r) := by
+  unfold cmpArm
+  simp only [hty, bind, Except.bind, descr_not_flonum, Bool.false_eq_true, ite_false]
+  apply noTrap_ite <;> exact noTrap_bind (hl false) (fun _ => noTrap_bind (hr false) (fun _ => noTrap_pure _))
+
+/-- **the folder never traps**: on every integer expression tree, whatever its operands (defined in C11 or not), evaluation
+    ends in a value, a diagnostic, or the host's undefined shift count — never SIGFPE, never a NULL dereference -/
+theorem no_trap (e : CExpr) : NT fp (elabE e) := by
+  induction e with
+  | lit t v =>
+    intro label; simp only [elabE]; rw [eval2_NUM _ _ _ _ _ _ _ _ _ _ (descr_not_flonum t)]; exact noTrap_pure _
+  | un op e ih =>
+    have hc := nt_cast fp (elabE e) (typeOf e).promote _ (tyOf_elab e) ih
+    intro label
+    cases op <;> simp only [elabE, mkPromoted, un, elab_ty, gct_int]
+    · rw [eval2_NEG _ _ _ _ _ _ _ _ _ _ (descr_not_flonum _)]
+      exact noTrap_wrap _ (noTrap_bind (hc false) (fun _ => noTrap_ok _))
+    · rw [eval2_BITNOT _ _ _ _ _ _ _ _ _ _ (descr_not_flonum _)]
+      exact noTrap_wrap _ (noTrap_bind (hc false) (fun _ => noTrap_pure _))
+    · rw [eval2_NOT _ _ _ _ _ _ _ _ _ _ (show isFlonum tyInt = false from rfl)]
+      exact noTrap_wrap _ (noTrap_bind (nt_truth fp _ _ (tyOf_elab e) ih) (fun _ => noTrap_pure _))
+    · split
+      · exact nt_cast fp (elabE e) .i32 _ (tyOf_elab e) ih label
+      · exact ih label
+  | bin op a b iha ihb =>
+    have hca := fun t => nt_cast fp (elabE a) t _ (tyOf_elab a) iha
+    have hcb := fun t => nt_cast fp (elabE b) t _ (tyOf_elab b) ihb
+    intro label
+    cases op <;> simp only [elabE, mkPromoted, mkArith, mkCompare, bin, elab_ty, gct_descr, gct_int]
+    · rw [eval2_ADD _ _ _ _ _ _ _ _ _ _ (descr_not_flonum _)]
+      exact noTrap_wrap _ (noTrap_bind (hca _ _) (fun _ => noTrap_bind (hcb _ _) (fun _ => noTrap_ok _)))
+    · rw [eval2_SUB _ _ _ _ _ _ _ _ _ _ (descr_not_flonum _)]
+      exact noTrap_wrap _ (noTrap_bind (hca _ _) (fun _ => noTrap_bind (hcb _ _) (fun _ => noTrap_ok _)))
+    · rw [eval2_MUL _ _ _ _ _ _ _ _ _ _ (descr_not_flonum _)]
+      exact noTrap_wrap _ (noTrap_bind (hca _ _) (fun _ => noTrap_bind (hcb _ _) (fun _ => noTrap_ok _)))
+    · rw [eval2_DIV _ _ _ _ _ _ _ _ _ _ (descr_not_flonum _)]
+      exact noTrap_wrap _ (noTrap_bind (hca _ _) (fun _ => noTrap_bind (hcb _ _) (fun _ => noTrap_divmod _ _ _ _)))
+    · rw [eval2_MOD _ _ _ _ _ _ _ _ _ _ (descr_not_flonum _)]
+      exact noTrap_wrap _ (noTrap_bind (hca _ _) (fun _ => noTrap_bind (hcb _ _) (fun _ => noTrap_divmod _ _ _ _)))
+    · rw [eval2_BITAND _ _ _ _ _ _ _ _ _ _ (descr_not_flonum _)]
+      exact noTrap_wrap _ (noTrap_bind (hca _ _) (fun _ => noTrap_bind (hcb _ _) (fun _ => noTrap_pure _)))
+    · rw [eval2_BITOR _ _ _ _ _ _ _ _ _ _ (descr_not_flonum _)]
+      exact noTrap_wrap _ (noTrap_bind (hca _ _) (fun _ => noTrap_bind (hcb _ _) (fun _ => noTrap_pure _)))
+    · rw [eval2_BITXOR _ _ _ _ _ _ _ _ _ _ (descr_not_flonum _)]
+      exact noTrap_wrap _ (noTrap_bind (hca _ _) (fun _ => noTrap_bind (hcb _ _) (fun _ => noTrap_pure _)))
+    · rw [eval2_SHL _ _ _ _ _ _ _ _ _ _ (descr_not_flonum _)]
+      exact noTrap_wrap _ (noTrap_bind (hca _ _) (fun _ => noTrap_bind (ihb _) (fun _ => noTrap_shlS _ _)))
+    · rw [eval2_SHR _ _ _ _ _ _ _ _ _ _ (descr_not_flonum _)]
+      exact noTrap_wrap _ (noTrap_bind (hca _ _) (fun _ => noTrap_bind (ihb _) (fun _ => noTrap_ite (noTrap_shrU _ _) (noTrap_shrS _ _))))
+    · rw [eval2_EQ _ _ _ _ _ _ _ _ _ _ (show isFlonum tyInt = false from rfl)]
+      exact noTrap_wrap _ (nt_cmpArm fp _ _ _ _ _ _ (tyOf_mkCast _ _) (hca _) (hcb _))
+    · rw [eval2_NE _ _ _ _ _ _ _ _ _ _ (show isFlonum tyInt = false from rfl)]
+      exact noTrap_wrap _ (nt_cmpArm fp _ _ _ _ _ _ (tyOf_mkCast _ _) (hca _) (hcb _))
+    · rw [eval2_LT _ _ _ _ _ _ _ _ _ _ (show isFlonum tyInt = false from rfl)]
+      exact noTrap_wrap _ (nt_cmpArm fp _ _ _ _ _ _ (tyOf_mkCast _ _) (hca _) (hcb _))
+    · rw [eval2_LE _ _ _ _ _ _ _ _ _ _ (show isFlonum tyInt = false from rfl)]
+      exact noTrap_wrap _ (nt_cmpArm fp _ _ _ _ _ _ (tyOf_mkCast _ _) (hca _) (hcb _))
+    · rw [eval2_LT _ _ _ _ _ _ _ _ _ _ (show isFlonum tyInt = false from rfl)]
+      exact noTrap_wrap _ (nt_cmpArm fp _ _ _ _ _ _ (tyOf_mkCast _ _) (hcb _) (hca _))
+    · rw [eval2_LE _ _ _ _ _ _ _ _ _ _ (show isFlonum tyInt = false from rfl)]
+      exact noTrap_wrap _ (nt_cmpArm fp _ _ _ _ _ _ (tyOf_mkCast _ _) (hcb _) (hca _))
+  | land a b iha ihb =>
+    intro label; simp only [elabE, bin]
+    rw [eval2_LOGAND _ _ _ _ _ _ _ _ _ _ (show isFlonum tyInt = false from rfl)]
+    exact noTrap_wrap _ (noTrap_bind (nt_truth fp _ _ (tyOf_elab a) iha) (fun _ =>
+      noTrap_bind (noTrap_ite (nt_truth fp _ _ (tyOf_elab b) ihb) (noTrap_pure _)) (fun _ => noTrap_pure _)))
+  | lor a b iha ihb =>
+    intro label; simp only [elabE, bin]
+    rw [eval2_LOGOR _ _ _ _ _ _ _ _ _ _ (show isFlonum tyInt = false from rfl)]
+    exact noTrap_wrap _ (noTrap_bind (nt_truth fp _ _ (tyOf_elab a) iha) (fun _ =>
+      noTrap_bind (noTrap_ite (noTrap_pure _) (nt_truth fp _ _ (tyOf_elab b) ihb)) (fun _ => noTrap_pure _)))
+  | cond c a b ihc iha ihb =>
+    intro label; simp only [elabE, elab_ty, gct_descr]
+    rw [eval2_COND _ _ _ _ _ _ _ _ _ _ (descr_not_flonum _)]
+    exact noTrap_wrap _ (noTrap_bind (nt_truth fp _ _ (tyOf_elab c) ihc) (fun _ =>
+      noTrap_ite (nt_cast fp _ _ _ (tyOf_elab a) iha _) (nt_cast fp _ _ _ (tyOf_elab b) ihb _)))
+  | cast t e ih => exact nt_cast fp _ t _ (tyOf_elab e) ih
+
+end notrap
+
+section constness
+variable (fp : FpEnv)
+
+/-! ## is_const_expr -/
+
+theorem isConst_null : isConstExpr .wrapping fp .null = .error (.crash "NULL node dereferenced") := by rw [isConstExpr]
+
+section
+variable (ty : CTy) (nv : BitVec 64) (l r c t e : CNode)
+
+/-- binary operator kinds of `is_const_expr` -/
+def constBin : List NodeKind := [.ND_ADD, .ND_SUB, .ND_MUL, .ND_DIV, .ND_MOD, .ND_BITAND, .ND_BITOR, .ND_BITXOR, .ND_SHL, .ND_SHR,
+  .ND_EQ, .ND_NE, .ND_LT, .ND_LE, .ND_LOGAND, .ND_LOGOR]
+def constUn : List NodeKind := [.ND_NEG, .ND_NOT, .ND_BITNOT, .ND_CAST]
+
+theorem isConst_bin (k : NodeKind) (hk : k ∈ constBin) :
+    isConstExpr .wrapping fp (.mk k ty nv l r c t e)
+      = (isConstExpr .wrapping fp l >>= fun x => if x then isConstExpr .wrapping fp r else pure false) := by
+  simp only [constBin, List.mem_cons, List.mem_nil_iff, or_false] at hk
+  rcases hk with h | h | h | h | h | h | h | h | h | h | h | h | h | h | h | h <;> subst h <;> rw [isConstExpr]
+
+theorem isConst_un (k : NodeKind) (hk : k ∈ constUn) :
+    isConstExpr .wrapping fp (.mk k ty nv l r c t e) = isConstExpr .wrapping fp l := by
+  simp only [constUn, List.mem_cons, List.mem_nil_iff, or_false] at hk
+  rcases hk with h | h | h | h <;> subst h <;> rw [isConstExpr]
+
+theorem isConst_num : isConstExpr .wrapping fp (.mk .ND_NUM ty nv l r c t e) = .ok true := by rw [isConstExpr]; rfl
+
+theorem isConst_comma : isConstExpr .wrapping fp (.mk .ND_COMMA ty nv l r c t e) = isConstExpr .wrapping fp r := by rw [isConstExpr]
+
+theorem isConst_cond :
+    isConstExpr .wrapping fp (.mk .ND_COND ty nv l r c t e)
+      = (isConstExpr .wrapping fp c >>= fun x => if !x then pure false else
+          (truth .wrapping fp c >>= fun b => if b then isConstExpr .wrapping fp t else isConstExpr .wrapping fp e)) := by
+  rw [isConstExpr]; rfl
+end
+
+/-- every condition of a `?:` anywhere in the expression has a C11 value (decidable) -/
+def condsDefined : CExpr → Bool
+  | .lit _ _ => true
+  | .un _ e => condsDefined e
+  | .bin _ a b => condsDefined a && condsDefined b
+  | .land a b => condsDefined a && condsDefined b
+  | .lor a b => condsDefined a && condsDefined b
+  | .cond c a b => (Spec.Const.eval c).isSome && condsDefined c && condsDefined a && condsDefined b
+  | .cast _ e => condsDefined e
+
+theorem isConst_cast (n : CNode) (ty : CTy) : isConstExpr .wrapping fp (mkCast n ty) = isConstExpr .wrapping fp n :=
+  isConst_un fp _ _ _ _ _ _ _ .ND_CAST (by simp [constUn])
+
+theorem isConst_elab (e : CExpr) (h : condsDefined e = true) : isConstExpr .wrapping fp (elabE e) = .ok true := by
+  induction e with
+  | lit t v => simp only [elabE]; exact isConst_num fp _ _ _ _ _ _ _
+  | un op e ih =>
+    have ih := ih h
+    cases op <;> simp only [elabE, mkPromoted, un]
+    · rw [isConst_un fp _ _ _ _ _ _ _ .ND_NEG (by simp [constUn]), isConst_cast, ih]
+    · rw [isConst_un fp _ _ _ _ _ _ _ .ND_BITNOT (by simp [constUn]), isConst_cast, ih]
+    · rw [isConst_un fp _ _ _ _ _ _ _ .ND_NOT (by simp [constUn]), ih]
+    · split
+      · rw [isConst_cast, ih]
+      · exact ih
+  | bin op a b iha ihb =>
+    simp only [condsDefined, Bool.and_eq_true] at h
+    have iha := iha h.1; have ihb := ihb h.2
+    cases op <;> simp only [elabE, mkPromoted, mkArith, mkCompare, bin] <;>
+      rw [isConst_bin fp _ _ _ _ _ _ _ _ (by simp [constBin])] <;>
+      simp only [isConst_cast, iha, ihb, bind, Except.bind, ite_true]
+  | land a b iha ihb =>
+    simp only [condsDefined, Bool.and_eq_true] at h
+    simp only [elabE, bin]; rw [isConst_bin fp _ _ _ _ _ _ _ _ (by simp [constBin])]
+    simp only [iha h.1, ihb h.2, bind, Except.bind, ite_true]
+  | lor a b iha ihb =>
+    simp only [condsDefined, Bool.and_eq_true] at h
+    simp only [elabE, bin]; rw [isConst_bin fp _ _ _ _ _ _ _ _ (by simp [constBin])]
+    simp only [iha h.1, ihb h.2, bind, Except.bind, ite_true]
+  | cond c a b ihc iha ihb =>
+    simp only [condsDefined, Bool.and_eq_true] at h
+    obtain ⟨⟨⟨hc, hcc⟩, hca⟩, hcb⟩ := h
+    obtain ⟨x, hx⟩ := Option.isSome_iff_exists.1 hc
+    simp only [elabE]; rw [isConst_cond]
+    simp only [ihc hcc, bind, Except.bind, Bool.not_true, Bool.false_eq_true, ite_false,
+      truth_of_folds fp (fold_main fp c x hx), isConst_cast, iha hca, ihb hcb, ite_self]
+  | cast t e ih => simp only [elabE]; rw [isConst_cast]; exact ih h
+
+end constness
+
+section ncc
+theorem eval2_flonum (h : HostMode) (fp : FpEnv) (k : NodeKind) (ty : CTy) (nv : BitVec 64) (l r c t e : CNode) (label : Bool)
+    (hf : isFlonum ty = true) :
+    eval2 h fp (.mk k ty nv l r c t e) label = (fp.toI64 (.mk k ty nv l r c t e) >>= fun v => pure (wrapTy ty v)) := by
+  unfold eval2
+  simp only [hf, ite_true]
+  change (_ >>= wrapM _) = _; rw [wrapK]
+
+/-- the diagnostic of the default arm of `eval3` -/
+def ncc : String := "not a compile-time constant"
+
+def NotNcc {α : Type} (r : Except Fail α) : Prop := r ≠ .error (.diag ncc)
+
+theorem notNcc_ok {α : Type} (a : α) : NotNcc (.ok a : Except Fail α) := fun h => by cases h
+theorem notNcc_pure {α : Type} (a : α) : NotNcc (pure a : Except Fail α) := fun h => by cases h
+theorem notNcc_bind {α β : Type} {m : Except Fail α} {f : α → Except Fail β} (hm : NotNcc m) (hf : ∀ a, NotNcc (f a)) :
+    NotNcc (m >>= f) := by
+  cases m with
+  | error e => intro h; exact hm (by simpa [Bind.bind, Except.bind] using h)
+  | ok a => exact hf a
+theorem notNcc_ite {α : Type} {c : Prop} [Decidable c] {a b : Except Fail α} (ha : NotNcc a) (hb : NotNcc b) :
+    NotNcc (if c then a else b) := by split <;> assumption
+theorem notNcc_wrap {raw : Except Fail (BitVec 64)} (ty : CTy) (h : NotNcc raw) : NotNcc (raw >>= fun v => pure (wrapTy ty v)) :=
+  notNcc_bind h (fun _ => notNcc_pure _)
+theorem notNcc_of_noTrap_host {r : Except Fail (BitVec 64)} (h : ∀ f, r = .error f → f ≠ .diag ncc) : NotNcc r :=
+  fun he => h _ he rfl
+
+theorem divmod_cases (isDiv : Bool) (ty : CTy) (a b : BitVec 64) :
+    (∃ v, divmod .wrapping isDiv ty a b = .ok v) ∨
+      divmod .wrapping isDiv ty a b = .error (.diag "division by zero in a constant expression") := by
+  unfold divmod
+  by_cases hb : b = 0#64
+  · subst hb; right; rfl
+  · have hb' : ¬ (b = 0) := hb
+    left
+    rw [beq_false_of_ne hb]
+    simp only [Bool.false_eq_true, ite_false]
+    split
+    · cases isDiv <;> simp only [Bool.false_eq_true, ite_false, ite_true, divU, modU, hb', ↓reduceIte] <;> exact ⟨_, rfl⟩
+    · by_cases h1 : b = 18446744073709551615#64
+      · subst h1; exact ⟨_, rfl⟩
+      · have h1' : ¬ (b = -1) := h1
+        rw [beq_false_of_ne h1]
+        cases isDiv <;> simp only [Bool.false_eq_true, ite_false, ite_true, divS, modS, hb', h1', and_false, ↓reduceIte] <;>
+          exact ⟨_, rfl⟩
+
+theorem notNcc_divmod (isDiv : Bool) (ty : CTy) (a b : BitVec 64) : NotNcc (divmod .wrapping isDiv ty a b) := by
+  rcases divmod_cases isDiv ty a b with ⟨v, h⟩ | h <;> rw [h]
+  · exact notNcc_ok _
+  · unfold NotNcc ncc; decide
+
+theorem notNcc_shlS (a : BitVec 64) (c : Int) : NotNcc (shlS .wrapping a c) := by
+  unfold shlS; split
+  · intro h; cases h
+  · exact notNcc_ok _
+theorem notNcc_shrS (a : BitVec 64) (c : Int) : NotNcc (shrS .wrapping a c) := by
+  unfold shrS; split
+  · intro h; cases h
+  · exact notNcc_ok _
+theorem notNcc_shrU (a : BitVec 64) (c : Int) : NotNcc (shrU .wrapping a c) := by
+  unfold shrU; split
+  · intro h; cases h
+  · exact notNcc_ok _
+
+/-- the floating evaluator never answers "not a compile-time constant" for the operands it is given (it is abstract here) -/
+structure FpClean (fp : FpEnv) : Prop where
+  toI64 : ∀ n, NotNcc (fp.toI64 n)
+  neZero : ∀ n, NotNcc (fp.neZero n)
+  cmp : ∀ op a b, NotNcc (fp.cmp op a b)
+
+theorem noFp_clean : FpClean noFp :=
+  { toI64 := fun _ h => (by cases h), neZero := fun _ h => (by cases h), cmp := fun _ _ _ h => (by cases h) }
+
+variable (fp : FpEnv) (hfp : FpClean fp)
+include hfp
+
+omit hfp in
+theorem notNcc_tyOf (n : CNode) : NotNcc (CNode.tyOf n) := by
+  cases n <;> intro h <;> cases h
+
+theorem notNcc_truth (n : CNode) (hn : ∀ label, NotNcc (eval2 .wrapping fp n label)) : NotNcc (truth .wrapping fp n) := by
+  unfold truth
+  exact notNcc_bind (notNcc_tyOf n) (fun _ => notNcc_ite (hfp.neZero n) (notNcc_bind (hn false) (fun _ => notNcc_pure _)))
+
+theorem notNcc_cmpArm (op : String) (cu cs : BitVec 64 → BitVec 64 → Bool) (l r : CNode)
+    (hl : ∀ label, NotNcc (eval2 .wrapping fp l label)) (hr : ∀ label, NotNcc (eval2 .wrapping fp r label)) :
+    NotNcc (cmpArm .wrapping fp op cu cs l r) := by
+  unfold cmpArm
+  refine notNcc_bind (notNcc_tyOf l) (fun _ => notNcc_ite (notNcc_bind (hfp.cmp _ _ _) (fun _ => notNcc_pure _)) (notNcc_ite ?_ ?_)) <;>
+    exact notNcc_bind (hl false) (fun _ => notNcc_bind (hr false) (fun _ => notNcc_pure _))
+
+
+end ncc
+
+section ncc2
+variable (fp : FpEnv) (hfp : FpClean fp)
+include hfp
+
+omit hfp in
+/-- children accepted by `is_const_expr`, as needed by one arm -/
+theorem ok_true_of_bind {m : Except Fail Bool} {f : Except Fail Bool}
+    (h : (m >>= fun x => if x then f else pure false) = .ok true) : m = .ok true ∧ f = .ok true := by
+  cases m with
+  | error e => cases h
+  | ok b => cases b <;> simp_all [bind, Except.bind, pure, Except.pure]
+
+/-- **a tree accepted by `is_const_expr` never makes the folder answer "not a compile-time constant"** -/
+theorem const_no_ncc : ∀ (n : CNode), isConstExpr .wrapping fp n = .ok true → ∀ label, NotNcc (eval2 .wrapping fp n label) := by
+  intro n
+  induction n with
+  | null => intro h; rw [isConst_null] at h; cases h
+  | mk k ty nv l r c t e ihl ihr ihc iht ihe =>
+    intro h label
+    by_cases hf : isFlonum ty = true
+    · rw [eval2_flonum _ _ _ _ _ _ _ _ _ _ _ hf]; exact notNcc_wrap _ (hfp.toI64 _)
+    · have hf : isFlonum ty = false := by simpa using hf
+      have bin2 : ∀ (hk : k ∈ constBin), (∀ lab, NotNcc (eval2 .wrapping fp l lab)) ∧ (∀ lab, NotNcc (eval2 .wrapping fp r lab)) := by
+        intro hk
+        rw [isConst_bin fp _ _ _ _ _ _ _ k hk] at h
+        have := ok_true_of_bind h
+        exact ⟨ihl this.1, ihr this.2⟩
+      have un1 : ∀ (hk : k ∈ constUn), (∀ lab, NotNcc (eval2 .wrapping fp l lab)) := by
+        intro hk
+        rw [isConst_un fp _ _ _ _ _ _ _ k hk] at h
+        exact ihl h
+      cases k
+      case ND_ADD =>
+        have ⟨h1, h2⟩ := bin2 (by simp [constBin])
+        rw [eval2_ADD _ _ _ _ _ _ _ _ _ _ hf]
+        exact notNcc_wrap _ (notNcc_bind (h1 _) (fun _ => notNcc_bind (h2 _) (fun _ => notNcc_ok _)))
+      case ND_SUB =>
+        have ⟨h1, h2⟩ := bin2 (by simp [constBin])
+        rw [eval2_SUB _ _ _ _ _ _ _ _ _ _ hf]
+        exact notNcc_wrap _ (notNcc_bind (h1 _) (fun _ => notNcc_bind (h2 _) (fun _ => notNcc_ok _)))
+      case ND_MUL =>
+        have ⟨h1, h2⟩ := bin2 (by simp [constBin])
+        rw [eval2_MUL _ _ _ _ _ _ _ _ _ _ hf]
+        exact notNcc_wrap _ (notNcc_bind (h1 _) (fun _ => notNcc_bind (h2 _) (fun _ => notNcc_ok _)))
+      case ND_DIV =>
+        have ⟨h1, h2⟩ := bin2 (by simp [constBin])
+        rw [eval2_DIV _ _ _ _ _ _ _ _ _ _ hf]
+        exact notNcc_wrap _ (notNcc_bind (h1 _) (fun _ => notNcc_bind (h2 _) (fun _ => notNcc_divmod _ _ _ _)))
+      case ND_MOD =>
+        have ⟨h1, h2⟩ := bin2 (by simp [constBin])
+        rw [eval2_MOD _ _ _ _ _ _ _ _ _ _ hf]
+        exact notNcc_wrap _ (notNcc_bind (h1 _) (fun _ => notNcc_bind (h2 _) (fun _ => notNcc_divmod _ _ _ _)))
+      case ND_BITAND =>
+        have ⟨h1, h2⟩ := bin2 (by simp [constBin])
+        rw [eval2_BITAND _ _ _ _ _ _ _ _ _ _ hf]
+        exact notNcc_wrap _ (notNcc_bind (h1 _) (fun _ => notNcc_bind (h2 _) (fun _ => notNcc_pure _)))
+      case ND_BITOR =>
+        have ⟨h1, h2⟩ := bin2 (by simp [constBin])
+        rw [eval2_BITOR _ _ _ _ _ _ _ _ _ _ hf]
+        exact notNcc_wrap _ (notNcc_bind (h1 _) (fun _ => notNcc_bind (h2 _) (fun _ => notNcc_pure _)))
+      case ND_BITXOR =>
+        have ⟨h1, h2⟩ := bin2 (by simp [constBin])
+        rw [eval2_BITXOR _ _ _ _ _ _ _ _ _ _ hf]
+        exact notNcc_wrap _ (notNcc_bind (h1 _) (fun _ => notNcc_bind (h2 _) (fun _ => notNcc_pure _)))
+      case ND_SHL =>
+        have ⟨h1, h2⟩ := bin2 (by simp [constBin])
+        rw [eval2_SHL _ _ _ _ _ _ _ _ _ _ hf]
+        exact notNcc_wrap _ (notNcc_bind (h1 _) (fun _ => notNcc_bind (h2 _) (fun _ => notNcc_shlS _ _)))
+      case ND_SHR =>
+        have ⟨h1, h2⟩ := bin2 (by simp [constBin])
+        rw [eval2_SHR _ _ _ _ _ _ _ _ _ _ hf]
+        exact notNcc_wrap _ (notNcc_bind (h1 _) (fun _ => notNcc_bind (h2 _) (fun _ => notNcc_ite (notNcc_shrU _ _) (notNcc_shrS _ _))))
+      case ND_EQ =>
+        have ⟨h1, h2⟩ := bin2 (by simp [constBin])
+        rw [eval2_EQ _ _ _ _ _ _ _ _ _ _ hf]; exact notNcc_wrap _ (notNcc_cmpArm fp hfp _ _ _ _ _ h1 h2)
+      case ND_NE =>
+        have ⟨h1, h2⟩ := bin2 (by simp [constBin])
+        rw [eval2_NE _ _ _ _ _ _ _ _ _ _ hf]; exact notNcc_wrap _ (notNcc_cmpArm fp hfp _ _ _ _ _ h1 h2)
+      case ND_LT =>
+        have ⟨h1, h2⟩ := bin2 (by simp [constBin])
+        rw [eval2_LT _ _ _ _ _ _ _ _ _ _ hf]; exact notNcc_wrap _ (notNcc_cmpArm fp hfp _ _ _ _ _ h1 h2)
+      case ND_LE =>
+        have ⟨h1, h2⟩ := bin2 (by simp [constBin])
+        rw [eval2_LE _ _ _ _ _ _ _ _ _ _ hf]; exact notNcc_wrap _ (notNcc_cmpArm fp hfp _ _ _ _ _ h1 h2)
+      case ND_LOGAND =>
+        have ⟨h1, h2⟩ := bin2 (by simp [constBin])
+        rw [eval2_LOGAND _ _ _ _ _ _ _ _ _ _ hf]
+        exact notNcc_wrap _ (notNcc_bind (notNcc_truth fp hfp _ h1) (fun _ =>
+          notNcc_bind (notNcc_ite (notNcc_truth fp hfp _ h2) (notNcc_pure _)) (fun _ => notNcc_pure _)))
+      case ND_LOGOR =>
+        have ⟨h1, h2⟩ := bin2 (by simp [constBin])
+        rw [eval2_LOGOR _ _ _ _ _ _ _ _ _ _ hf]
+        exact notNcc_wrap _ (notNcc_bind (notNcc_truth fp hfp _ h1) (fun _ =>
+          notNcc_bind (notNcc_ite (notNcc_pure _) (notNcc_truth fp hfp _ h2)) (fun _ => notNcc_pure _)))
+      case ND_NEG =>
+        have h1 := un1 (by simp [constUn])
+        rw [eval2_NEG _ _ _ _ _ _ _ _ _ _ hf]; exact notNcc_wrap _ (notNcc_bind (h1 _) (fun _ => notNcc_ok _))
+      case ND_NOT =>
+        have h1 := un1 (by simp [constUn])
+        rw [eval2_NOT _ _ _ _ _ _ _ _ _ _ hf]; exact notNcc_wrap _ (notNcc_bind (notNcc_truth fp hfp _ h1) (fun _ => notNcc_pure _))
+      case ND_BITNOT =>
+        have h1 := un1 (by simp [constUn])
+        rw [eval2_BITNOT _ _ _ _ _ _ _ _ _ _ hf]; exact notNcc_wrap _ (notNcc_bind (h1 _) (fun _ => notNcc_pure _))
+      case ND_CAST =>
+        have h1 := un1 (by simp [constUn])
+        rw [eval2_CAST _ _ _ _ _ _ _ _ _ _ hf]
+        refine notNcc_wrap _ (notNcc_ite ?_ (h1 _))
+        exact notNcc_bind (notNcc_tyOf l) (fun _ => notNcc_ite (notNcc_bind (hfp.neZero _) (fun _ => notNcc_pure _))
+          (notNcc_bind (h1 _) (fun _ => notNcc_pure _)))
+      case ND_NUM => rw [eval2_NUM _ _ _ _ _ _ _ _ _ _ hf]; exact notNcc_pure _
+      case ND_COMMA =>
+        rw [isConst_comma] at h
+        rw [eval2_COMMA _ _ _ _ _ _ _ _ _ _ hf]; exact notNcc_wrap _ (ihr h _)
+      case ND_COND =>
+        rw [isConst_cond] at h
+        rw [eval2_COND _ _ _ _ _ _ _ _ _ _ hf]
+        -- the condition is accepted, and the branch `eval_truth` selects is accepted
+        cases hc : isConstExpr .wrapping fp c with
+        | error err => rw [hc] at h; cases h
+        | ok bc =>
+          rw [hc] at h
+          cases bc with
+          | false => simp [bind, Except.bind, pure, Except.pure] at h
+          | true =>
+            simp only [bind, Except.bind, Bool.not_true, Bool.false_eq_true, ite_false] at h
+            have hcn := ihc hc
+            refine notNcc_wrap _ ?_
+            cases htr : truth .wrapping fp c with
+            | error err =>
+              have := notNcc_truth fp hfp c hcn
+              rw [htr] at this
+              intro hh; exact this (by simpa [bind, Except.bind] using hh)
+            | ok b =>
+              rw [htr] at h
+              cases b with
+              | true => simp only [ite_true] at h ⊢; exact iht h _
+              | false => simp only [Bool.false_eq_true, ite_false] at h ⊢; exact ihe h _
+      all_goals (exfalso; unfold isConstExpr at h; dsimp only at h; revert h; decide)
+
+end ncc2
+
+/-! ## Consumers -/
+
+section consumers
+/-- conversion of the folded `int64_t` to `int` keeps every value an `int` can hold -/
+theorem store_int (v : Int) (h : ITy.inRange .i32 v = true) : (castS 32 (img v)).toInt = v := by
+  rng
+  simp only [castS, img]
+  rw [BitVec.signExtend_eq_setWidth_of_le _ (by decide), BitVec.toInt_setWidth, BitVec.toNat_ofInt]
+  simp only [Int.bmod_def]
+  omega
+
+theorem store_long (v : Int) (h : ITy.inRange .i64 v = true) : (img v).toInt = v := by
+  rng; exact img_toInt v h.1 h.2
+
+/-- object representation of the value `x` in an object of type `t`, zero-extended to 64 bits -/
+def objBits (t : ITy) (x : Int) : BitVec 64 := BitVec.ofInt 64 (x % 2 ^ (8 * t.size))
+
+theorem writeBuf_descr (t : ITy) (x : Int) : writeBuf (img x) (descr t).size = .ok (objBits t x) := by
+  cases t <;> simp [writeBuf, descr, objBits, ITy.size] <;>
+    (apply BitVec.eq_of_toNat_eq; simp only [castU, img, BitVec.toNat_setWidth, BitVec.toNat_ofInt]; omega)
+
+/-- **static initializer**: the object holds the C11 conversion of the value to the object's type -/
+theorem store_gvar (fp : FpEnv) (t : ITy) (e : CExpr) (v : Int) (h : Folds fp e v) :
+    storeGvar fp (descr t) (elabE e) (img v) = .ok (objBits t (t.convert v)) := by
+  unfold storeGvar
+  by_cases hb : t = .bool
+  · subst hb
+    have hw := inRange_wide _ v h.1
+    have hz := img_eq_zero_iff v hw.1 hw.2
+    have e1 : (img v != 0#64) = (v != 0) := by
+      rw [Bool.eq_iff_iff]; simp only [bne_iff_ne, ne_eq]; exact not_congr hz
+    have e2 : ITy.convert .bool v = b2z (v != 0) := by
+      simp only [ITy.convert, b2z]; by_cases h0 : v = 0 <;> simp [h0]
+    simp only [show ((descr .bool).kind == TypeKind.TY_BOOL) = true from rfl, ite_true, tyOf_elab, bind, Except.bind,
+      descr_not_flonum, Bool.false_eq_true, ite_false, pure, Except.pure, e1, e2]
+    cases (v != 0) <;> rfl
+  · have hk : ((descr t).kind == TypeKind.TY_BOOL) = false := by cases t <;> first | rfl | exact absurd rfl hb
+    simp only [hk, Bool.false_eq_true, ite_false, bind, Except.bind, pure, Except.pure, writeBuf_descr]
+    congr 1
+    cases t <;> simp only [objBits, ITy.convert, ITy.signed, ITy.bits, ITy.size, ite_true, ite_false, Bool.false_eq_true] <;>
+      first | exact absurd rfl hb | (apply img_congr; omega)
+
+
+end consumers
+
 end ChibiVerif.ConstEvalLemmas
